@@ -85,8 +85,13 @@ def _from_soap(in_envelope_xml, xmlids=None, **kwargs):
         header = header_envelope[0].getchildren()
 
     body = None
-    if len(body_envelope) > 0 and len(body_envelope[0]) > 0:
-        body = body_envelope[0][0]
+    if len(body_envelope) > 0:
+        # the first child that is an element (and not a processing instruction
+        # or an entity reference)
+        for child in body_envelope[0]:
+            if isinstance(child.tag, six.string_types):
+                body = child
+                break
 
     return header, body
 
